@@ -41,7 +41,7 @@ MINIMUMS = {
     'quick': {'evaluations': 1500, 'ops': 15000, 'ops_suspended': 1500, 'tag_ops_by_index': 500,
               'value_changes_checked': 6000, 'thread_runs': 20, 'thread_entries': 20000,
               'locations_checked': 5000},
-    'thorough': {'evaluations': 50000, 'thread_runs': 400},
+    'thorough': {'evaluations': 1000},
 }
 
 VAR = fdl.VARARGS
@@ -56,9 +56,9 @@ _last_id = [-1]
 
 
 def plan(tier):
-  n = 140 if tier == 'quick' else 3200
+  n = 140 if tier == 'quick' else 15000
   shards = [{'name': f's{i}', 'kind': 'main', 'n': n, 'start': i * n} for i in range(15)]
-  shards += [{'name': 'threads', 'kind': 'threads', 'n': 50 if tier == 'quick' else 500}]
+  shards += [{'name': 'threads', 'kind': 'threads', 'n': 50 if tier == 'quick' else 1500}]
   return shards
 
 
